@@ -9,6 +9,7 @@ import (
 	"strings"
 
 	"github.com/google/pprof/profile"
+	"github.com/google/pprof/verif/internal/drv"
 	"github.com/google/pprof/verif/internal/harness"
 	"github.com/google/pprof/verif/internal/mon"
 )
@@ -377,6 +378,92 @@ func runPruneFrom(c *harness.Ctx) harness.Result {
 	return res
 }
 
+// through the driver: profile-embedded drop/keep expressions are applied when the profile is
+// fetched, -prune_from when a report is made
+func runDriver(c *harness.Ctx) harness.Result {
+	r := c.Rng
+	p := genProfile(r)
+	for i, s := range p.Sample {
+		if s.Label == nil {
+			s.Label = map[string][]string{}
+		}
+		s.Label["id"] = []string{fmt.Sprint(i)}
+	}
+	e := exprs[r.Intn(len(exprs))]
+	pf := ""
+	if r.Intn(2) == 0 {
+		pf = exprs[r.Intn(len(exprs))][0]
+	}
+	p.DropFrames, p.KeepFrames = e[0], e[1]
+	drop := regexp.MustCompile("^(" + e[0] + ")$")
+	var keep *regexp.Regexp
+	if e[1] != "" {
+		keep = regexp.MustCompile("^(" + e[1] + ")$")
+	}
+	type exp struct {
+		frames string
+		known  bool
+		dev    string
+	}
+	want := map[string]exp{}
+	for i, s := range p.Sample {
+		fs := refPrune(framesOf(s), drop, keep)
+		dv := devPrune(s, drop, keep)
+		x := exp{known: inClass(s, drop, keep)}
+		if pf != "" {
+			rx := regexp.MustCompile(pf)
+			fs = refPruneFrom(fs, rx)
+			dv = refPruneFrom(dv, rx)
+		}
+		x.frames, x.dev = fstr(fs), fstr(dv)
+		want[fmt.Sprint(i)] = x
+	}
+	desc := fmt.Sprintf("drop_frames=%q keep_frames=%q prune_from=%q", e[0], e[1], pf)
+	res := harness.Result{NonTrivial: true, Sig: desc + fmt.Sprint(len(p.Sample), c.Index), Sample: map[string]any{"options": desc}}
+	out, ui, rr := drv.Report(map[string]*profile.Profile{"p": p}, []string{"p"}, map[string]bool{"proto": true, "addresses": true}, map[string]string{"prune_from": pf}, nil, nil, nil)
+	if rr.Panic != "" {
+		return harness.Violation("%s: panic %s", desc, rr.Panic)
+	}
+	if rr.Err != nil {
+		return harness.Violation("%s: pprof -proto failed: %v %v", desc, rr.Err, ui.Errs)
+	}
+	got, err := profile.ParseData([]byte(out))
+	if err != nil {
+		return harness.Violation("%s: output unparseable: %v", desc, err)
+	}
+	c.Stat("driver_runs", 1)
+	if len(got.Sample) != len(p.Sample) {
+		res.Verdict, res.Detail = harness.Violated, fmt.Sprintf("%s: %d samples in, %d out", desc, len(p.Sample), len(got.Sample))
+		return res
+	}
+	known := ""
+	for _, s := range got.Sample {
+		id := ""
+		if v := s.Label["id"]; len(v) == 1 {
+			id = v[0]
+		}
+		w, ok := want[id]
+		if !ok {
+			return harness.Violation("%s: sample lost its labels: %v", desc, s.Label)
+		}
+		g := fstr(framesOf(s))
+		if g == w.frames {
+			continue
+		}
+		if w.known && g == w.dev {
+			known = fmt.Sprintf("%s (through the driver): sample %s became %s; the statement gives %s", desc, id, g, w.frames)
+			continue
+		}
+		res.Verdict = harness.Violated
+		res.Detail = fmt.Sprintf("%s: sample %s frames(root->leaf) %s, expected %s\nprofile:\n%s", desc, id, g, w.frames, harness.Trunc(p.String(), 2500))
+		return res
+	}
+	if known != "" {
+		res.Verdict, res.KnownID, res.Detail = harness.Known, KnownPruneMixed, known
+	}
+	return res
+}
+
 func runSimplify(c *harness.Ctx) harness.Result {
 	// the simplification itself is observable through Prune on a single-frame-after-user sample
 	r := c.Rng
@@ -412,7 +499,7 @@ func init() {
 	harness.Register(&harness.Check{
 		ID:    "C11",
 		Level: "exploration",
-		Rule: "generated profiles with 0..3 inline lines per location (match at every line position), locations shared between samples as cut point / rootward / leafward, matches at root and leaf, keep overrides, unnamed and unsymbolized frames, C++ names needing simplification; 7 drop/keep expression pairs; through Prune, RemoveUninteresting (profile-embedded expressions) and PruneFrom. " +
+		Rule: "generated profiles with 0..3 inline lines per location (match at every line position), locations shared between samples as cut point / rootward / leafward, matches at root and leaf, keep overrides, unnamed and unsymbolized frames, C++ names needing simplification; 7 drop/keep expression pairs; through Prune, RemoveUninteresting (profile-embedded expressions) and PruneFrom, and through the real driver (profile-embedded drop_frames/keep_frames applied at fetch, -prune_from at report time, observed with -proto). " +
 			"oracle: frame-level reference written from the statement; sample count, values, labels unchanged; never empties a sample; no expressions => fingerprint unchanged. Deviation of the listed known finding is accepted only inside its input class and only if the output equals the deviation model. non-trivial = every case; distinct = (expressions, profile text length)",
 		Assumptions: []string{"a frame without function name never matches", "within a location Line[0] is the leaf-most inlined frame"},
 		Parts: []harness.Part{
@@ -420,6 +507,7 @@ func init() {
 			{Name: "prunefrom", Quick: 5000, Thor: 250000, Run: runPruneFrom},
 			{Name: "untouched", Quick: 500, Thor: 20000, Run: runUntouched},
 			{Name: "simplify", Quick: 2000, Thor: 100000, Run: runSimplify},
+			{Name: "driver", Quick: 3000, Thor: 100000, Run: runDriver},
 		},
 		MinNonTrivial: func(string) int { return 1000 },
 	})
